@@ -292,6 +292,8 @@ HOSTILE_ARGS = [
     {"drm": "none"}, {"drm": "all"}, {"mode": "live"}, {"mode": "odvod"}, {"mode": "bogus"}, {"time": "direct"},
     {"abr": "0", "base": "0", "mup": "8", "events": "ping", "acodec": "any", "time": "xsd", "drm": "marlin-cenc"},
     {"merr": "404=", "update": "3"}, {"terr": "404=07:00:00Z"},
+    {"events": "ping", "ping__start": "-5", "ping__inband": "0"}, {"events": "ping", "ping__start": "-5", "ping__inband": "1"},
+    {"events": "scte35", "scte35__start": "-1"}, {"events": "ping", "ping__start": "-5"},
 ]
 
 
